@@ -508,3 +508,16 @@ impl<'dbg, H: Hint> FatDieRef<'dbg, H> {
         (self.unit_idx, off)
     }
 }
+
+#[cfg(feature = "verif")]
+impl<'dbg, H: Typed> FatDieRef<'dbg, H> {
+    /// verification hook: bytes of the location expression selected for `pc` (the same call
+    /// `read_value` makes)
+    pub fn verif_location_bytes(&self, pc: GlobalAddress) -> Option<Vec<u8>> {
+        use gimli::Reader;
+        let die = weak_error!(self.deref())?;
+        let location = die.location()?;
+        let expr = DwarfLocation(&location).try_as_expression(self.debug_info, self.unit(), pc)?;
+        expr.0.to_slice().ok().map(|s| s.to_vec())
+    }
+}
